@@ -87,7 +87,8 @@ def failing(obls, env, limit=4):
     for ob in obls:
         ok, l, r = check(ob, env)
         if not ok:
-            out.append((ob["name"], l, r))
+            where = ob["lhs"][1] if ob["lhs"][0] == "obs" else ""
+            out.append((ob["name"] + ("@" + where if where and not where.endswith(ob["name"]) else ""), l, r))
             if len(out) >= limit:
                 break
     return out
